@@ -1,13 +1,16 @@
 """C07 -- WSDL/XSD are well-formed, closed, deterministic and drive a foreign client.
 
-Obligations: theorems of coq/Props/C07.v over the model coq/C07/Model.v.
-Tie: for seeded generated applications the real Wsdl11.build_interface_document() of
-the tree under test is run, its bytes are parsed into the token skeleton of the model
-(every defined name, every QName with the prefix written, the xmlns table of
-wsdl:definitions) and compared with the model evaluated on a snapshot of the populated
-Interface.  Direct oracle (implementation alone): reference resolution over the parsed
-bytes, one-operation-per-method, byte identity across fresh processes under different
-PYTHONHASHSEEDs, and a zeep client built from the WSDL alone talking to the
+Obligations: theorems of coq/Props/C07.v over the model coq/C07/Model.v, which takes the decisive
+tokens of the emitters from Gen/WsdlGen.v (harness/translate/wsdlgen.py reads them from the tree
+under test on every run).
+Tie: for seeded generated applications the real Wsdl11.build_interface_document() of the tree
+under test is run, its bytes are parsed into the token skeleton of the model (every defined name,
+every QName with the prefix written, the xmlns table of wsdl:definitions) and compared with the
+model evaluated on a snapshot of the populated Interface; the same cases evaluate the decidable
+hypotheses of the theorems (wf_snapb, key_injb, tier_sepb) on the snapshot.
+Direct oracle (implementation alone): reference resolution over the parsed bytes,
+one-operation-per-method, byte identity across fresh processes under different PYTHONHASHSEEDs and
+across rebuilds in one process, and a zeep client built from the WSDL alone talking to the
 WsgiApplication in-process."""
 import os, sys, json, base64, hashlib, subprocess, copy, io
 
@@ -197,6 +200,17 @@ def fixed_specs():
     out.append(('preregistered-prefixes', {'tns': 'urn:c07:tns', 'name': 'App', 'classes': K, 'faults': [],
                                            'preprefix': [['s0', 'urn:c07:c'], ['s1', 'urn:c07:unused']], 'services': [
         S('Svc0', [M('m0', [('cls', 1)], ('cls', 2), in_header=[0])])]}))
+    # applications that check_method_port refuses (ValueError from build_interface_document): not in the domain of
+    # the property, but the model has to refuse them too
+    out.append(('rejected-port-not-declared', {'tns': 'urn:c07:tns', 'name': 'App', 'classes': [], 'faults': [],
+                                               'expect_reject': 'ValueError', 'services': [
+        S('Svc0', [M('m0', port='PA'), M('m1', port='PX')], ports=['PA'])]}))
+    out.append(('rejected-port-on-default-service', {'tns': 'urn:c07:tns', 'name': 'App', 'classes': [], 'faults': [],
+                                                     'expect_reject': 'ValueError', 'services': [
+        S('Svc0', [M('m0', port='PA')])]}))
+    out.append(('rejected-no-port-on-ported-service', {'tns': 'urn:c07:tns', 'name': 'App', 'classes': [], 'faults': [],
+                                                       'expect_reject': 'ValueError', 'services': [
+        S('Svc0', [M('m0')], ports=['PA'])]}))
     # three port types
     out.append(('three-ports', {'tns': 'urn:c07:tns', 'name': 'App', 'classes': [], 'faults': [], 'services': [
         S('Svc0', [M('m0', port='P1'), M('m1', port='P0'), M('m2', port='P2'), M('m3', port='P0')],
@@ -1087,6 +1101,13 @@ def process(check, name, spec, cases, want_zeep=True):
     try:
         doc = build_wsdl(b.app)
     except Exception as e:
+        if spec.get('expect_reject') == type(e).__name__:
+            # Spyne refuses the application (a method names a port type its service does not have): the model must too
+            check.extra.setdefault('rejected_specs', []).append('%s: %s' % (name, type(e).__name__))
+            cases.append(('(%s, %s, None, false, %s, %s)' % (term, glist([gz(x) for x in rank]), gbool(pinj), gbool(psep)),
+                          name + ' (application refused)'))
+            check.count(('rejected', name, json.dumps(spec, sort_keys=True)))
+            return None
         region = [f for f in ('bare-complex-foreign-ns', 'cyclic-types') if f in features]
         key = 'C07|build-crash|%s|%s' % (type(e).__name__, region[0] if region else 'any')
         check.fail(key, '%s: build_interface_document raised %s: %s' % (name, type(e).__name__, str(e).split('\n')[0][:200]),
@@ -1101,6 +1122,9 @@ def process(check, name, spec, cases, want_zeep=True):
         check.fail('C07|well-formed|%s' % type(e).__name__, '%s: document is not well-formed XML: %s' % (name, e),
                    {'spec': spec, 'name': name})
         return None
+    if spec.get('expect_reject'):
+        check.fail('C07|accepted-invalid|%s' % name, '%s: an application that names a port type its service does not have '
+                   'got a WSDL' % name, {'spec': spec, 'name': name})
     if P['unknown']:
         check.mismatch('wsdl_skeleton', '%s: document has nodes the skeleton does not cover: %r' % (name, P['unknown'][:3]))
     obs = '(Some (%s, %s))' % (glist([gtext(t or '') for t in P['tokens']]),
@@ -1163,26 +1187,44 @@ def run(check):
     tier = check.tier
     check.rule = ('generated applications (1..3 services, 0..8 classes over 6 namespaces with inheritance/arrays, '
                   'custom operation / message names with and without foreign namespaces, 0..2 in/out headers per '
-                  'method or per service, 0..2 faults, 0..3 port types per service, wrapped/bare/out_bare); a case is '
-                  'distinct by its full specification; counted: documents compared with the model, zeep calls, '
+                  'method or per service, 0..2 faults, 0..3 port types per service, wrapped/bare/out_bare, 0..2 '
+                  'hand-registered sN prefixes) plus fixed boundary applications and one witness per known finding; a '
+                  'case is distinct by its full specification; counted: documents compared with the model, zeep calls, '
                   'fresh-process rebuilds')
     check.trusted = list(lib.COMMON_TRUSTED) + [
         'the snapshot function of harness/c07.py (reads the populated Interface: classes/deps/imports/prefix tables and '
         'the MethodDescriptors) and its parser of the emitted bytes into the token skeleton',
+        'harness/translate/wsdlgen.py: what it accepts in wsdl11.py / interface/_base.py / xml_schema/_base.py / '
+        'util/toposort.py means what Gen/WsdlGen.v says (message= prefixes, sorted() over the import sets, the '
+        'components of the toposort2 key, the header-message suffixes, the prefix stem)',
         'lxml (parsing, in-scope namespace tables), zeep 4.3.3 and requests.Response as the independent client',
-        'modelled, not verified: lxml freezes the nsmap of an element at creation; Python str ordering = code point order',
+        'modelled, not verified: lxml freezes the nsmap of an element at creation; Python str / tuple ordering = code '
+        'point order on the U+0000-joined components; dict / odict keep insertion order',
     ]
     check.assumptions = [
-        'Interface.populate_interface is outside the model: its result (deps closed under base/member types, every '
-        'complex class registered, fault namespaces forced to the tns, method names unique) enters the theorems as the '
-        'decidable hypothesis wf_snap, which the correspondence cases are built from',
-        'XmlSchema.add is modelled for executions where the recursive document.add(member) is a no-op (guaranteed by '
-        'toposort2 soundness + closed deps); any other execution is the distinguished EModelLimit',
-        'toposort_det / doc_det need repr() injective on the classes of a tier (customised variants of one class share '
-        'their repr; their relative order is hash/address ordered in the real code)',
+        'PROVED over the model, for every snapshot and every iteration order of the Python sets: prefix allocation is '
+        'injective and total; toposort2 is total, sound and - where the key separates - order independent; message / '
+        'portType / binding / port references resolve; one portType operation and one matching binding operation per '
+        'method; binding names unique; type / base / element references of the schemas and wsdl:part elements resolve '
+        '(under wf_snap); the document skeleton, prefixes and xmlns table are order independent (under key_injb or '
+        'tier_sepb)',
+        'Interface.populate_interface is outside the model: what it leaves behind enters C07_schema_closed as the decidable '
+        'hypothesis wf_snap (classes registered with a registered variant of their base, requests / responses in the target '
+        'namespace or registered, headers and faults registered under their element name); wf_snapb is evaluated in Coq '
+        'on the snapshot of every generated application and must be true outside the regions of the known findings',
+        'faults_in_tns (hypothesis of C07_wsdl_closed): Interface.add_method assigns fault.__namespace__ = tns; read off '
+        'the snapshot, not proved',
+        'determinism: C07_doc_det needs the toposort2 key to separate all registered classes, C07_doc_det_tiers only the '
+        'classes of one tier whose handler writes a node; which of the two holds is computed from the real tiers and '
+        'confirmed in Coq per snapshot (coverage.determinism_hypotheses).  Where neither holds (two Array(...) / customised '
+        'twins of a complex class in one tier, which write identical nodes) byte identity is OBSERVED (same-process '
+        'rebuild with fresh class objects, fresh processes under 4/10 PYTHONHASHSEEDs), not proved',
+        'C07_binding_ops assumes that no service lists a port type twice in __port_types__',
         'callbacks, async methods, auxiliary services, partner links, XmlAttribute/XmlData members, customised simple '
         'types and enums are outside the generated universe (the harness reports them as outside the model)',
-        'well-formedness of the bytes and the zeep leg are exercised, not proved',
+        'well-formedness of the bytes (lxml parses them) and the foreign client (zeep built from the bytes alone, '
+        'in-process transport, every operation called once with sample values, request values / headers seen by the '
+        'server and reply values compared) are exercised, not proved',
     ]
     check.regen(['wsdlgen'])
     try:
